@@ -44,6 +44,19 @@ def real_time(tspec):
     return datetime(*tspec[1:8])
 
 
+_ENUMS = {}
+
+
+def as_str_enum(value):
+    """A member of a str-based Enum whose VALUE is `value` (it equals and hashes like the string) and whose member
+    NAME is something else: a measurement name is the string, not an attribute of the object that carries it."""
+    import enum
+
+    if value not in _ENUMS:
+        _ENUMS[value] = enum.Enum("MeasurementName", {"MEMBER_NAME": value}, type=str).MEMBER_NAME
+    return _ENUMS[value]
+
+
 def real_point(spec):
     from tinyflux import Point
 
@@ -205,6 +218,8 @@ class Session:
             kw["encoding"] = cfg["encoding"]
         if not cfg.get("flush", True):
             kw["flush_on_insert"] = False
+        elif cfg.get("flush_as_int"):
+            kw["flush_on_insert"] = 1  # truthy, equal to True, not a bool
         if access_mode or cfg.get("access_mode"):
             kw["access_mode"] = access_mode or cfg["access_mode"]
         # the documented forms of the path argument, rotated by database directory number (deterministic per run)
@@ -216,6 +231,12 @@ class Session:
             path = pathlib.Path(self.path)
         elif form == 3:
             kw["create_dirs"] = True
+        if form == 0 and not cfg.get("flush_as_int"):
+            # the storage class given explicitly - a subclass of CSVStorage, as applications (and the repository's own
+            # test fixtures) define them; every option keeps its default
+            from tinyflux.storages import CSVStorage
+
+            kw["storage"] = type("AppCSVStorage", (CSVStorage,), {})
         elif form == 1:
             path = os.path.relpath(self.path)  # relative to the working directory (which no check changes)
         return TinyFlux(path, auto_index=cfg["auto_index"], **kw)
@@ -356,6 +377,9 @@ class Session:
         via_h = op.get("via") == "h"
         m = op.get("m")
         mfilter = m if m else None
+        # what the real call is given as measurement filter: the name, or (reads and removals only) a member of a
+        # str-based Enum that IS that name as a string while its member name differs
+        rf = as_str_enum(mfilter) if (mfilter and op.get("m_form") == "enum" and not via_h) else mfilter
         mdl = self.model
         tgt = self.target(op)
         q_ast = op.get("q")
@@ -401,6 +425,17 @@ class Session:
                 arg = iter(ps)
             elif form == "values":
                 arg = {i: p_ for i, p_ in enumerate(ps)}.values()
+            elif form == "gen_reading":
+                # a lazily evaluated source that looks into the database between two points (a read may rebuild the
+                # index in the middle of the batch)
+                def reading(ps=ps, db=self.db):
+                    from tinyflux import MeasurementQuery
+
+                    for p_ in ps:
+                        db.contains(MeasurementQuery() == "never-a-measurement")
+                        yield p_
+
+                arg = reading()
             bad_at = op.get("bad_at")
             if bad_at is not None:
                 # a batch that fails part-way: a non-Point element / a source that raises after `bad_at` good points
@@ -431,6 +466,20 @@ class Session:
         elif kind in ("update", "update_all"):
             args = op["args"]
             kw = real_update_kwargs(args)
+            if args.get("reentrant") and self.cfg["auto_index"] and callable(kw.get("fields")):
+                # the fields callable looks into the database while the update runs (answers that a valid index gives
+                # without touching storage): the update goes on as if it had not
+                inner, db_ = kw["fields"], self.db
+
+                def looking(f, inner=inner, db_=db_):
+                    from tinyflux import MeasurementQuery
+
+                    db_.count(MeasurementQuery() == "m0")
+                    len(db_)
+                    db_.get_measurements()
+                    return inner(f)
+
+                kw["fields"] = looking
             if update_args_empty(args):
                 out.exp_exc = ("ValueError",)
             if kind == "update":
@@ -456,7 +505,7 @@ class Session:
             if via_h:
                 out.real = self._call(tgt.remove, q)
             elif mfilter:
-                out.real = self._call(tgt.remove, q, mfilter)
+                out.real = self._call(tgt.remove, q, rf)
             else:
                 out.real = self._call(tgt.remove, q)
             mdl.remove(q_ast, sel_m)
@@ -471,7 +520,7 @@ class Session:
                 mdl.remove_all()
         elif kind == "drop_measurement":
             out.exp = mdl.copy().remove(None, op["name"])
-            out.real = self._call(self.db.drop_measurement, op["name"])
+            out.real = self._call(self.db.drop_measurement, as_str_enum(op["name"]) if op.get("m_form") == "enum" else op["name"])
             mdl.remove(None, op["name"])
         elif kind == "reindex":
             out.exp = None
@@ -486,21 +535,21 @@ class Session:
             if via_h:
                 r = self._call(tgt.search, q, sorted=s)
             else:
-                r = self._call(tgt.search, q, mfilter, sorted=s)
+                r = self._call(tgt.search, q, rf, sorted=s)
             out.real = self._norm_pts(r)
         elif kind == "count":
             sel_m = m if via_h else mfilter
             out.exp = mdl.count(q_ast, sel_m)
-            out.real = self._call(tgt.count, q) if via_h else self._call(tgt.count, q, mfilter)
+            out.real = self._call(tgt.count, q) if via_h else self._call(tgt.count, q, rf)
         elif kind == "contains":
             sel_m = m if via_h else mfilter
             out.exp = mdl.contains(q_ast, sel_m)
-            out.real = self._call(tgt.contains, q) if via_h else self._call(tgt.contains, q, mfilter)
+            out.real = self._call(tgt.contains, q) if via_h else self._call(tgt.contains, q, rf)
         elif kind == "get":
             sel_m = m if via_h else mfilter
             g = mdl.get(q_ast, sel_m)
             out.exp = None if g is None else g.canon()
-            r = self._call(tgt.get, q) if via_h else self._call(tgt.get, q, mfilter)
+            r = self._call(tgt.get, q) if via_h else self._call(tgt.get, q, rf)
             out.real = None if r is None else self._norm_pts([r])[0]
         elif kind == "select":
             sel_m = m if via_h else mfilter
@@ -516,7 +565,7 @@ class Session:
                     arg = (k_ for k_ in keys)
                 elif kform == "keysview":
                     arg = {k_: None for k_ in keys}.keys() if len(set(keys)) == len(keys) else list(keys)
-            r = self._call(tgt.select, arg, q) if via_h else self._call(tgt.select, arg, q, mfilter)
+            r = self._call(tgt.select, arg, q) if via_h else self._call(tgt.select, arg, q, rf)
             out.real = self._norm_select(r, keys)
         elif kind == "all":
             s = op.get("sorted", True)
@@ -544,7 +593,7 @@ class Session:
         elif kind in ("get_tag_keys", "get_field_keys"):
             sel_m = m if via_h else mfilter
             out.exp = getattr(mdl, kind)(sel_m)
-            out.real = self._call(getattr(tgt, kind)) if via_h else self._call(getattr(tgt, kind), mfilter)
+            out.real = self._call(getattr(tgt, kind)) if via_h else self._call(getattr(tgt, kind), rf)
         elif kind == "get_tag_values":
             sel_m = m if via_h else mfilter
             keys = list(op.get("keys") or [])
@@ -556,18 +605,18 @@ class Session:
             if via_h:
                 out.real = self._call(tgt.get_tag_values, keys) if keys else self._call(tgt.get_tag_values)
             else:
-                out.real = self._call(tgt.get_tag_values, keys, mfilter)
+                out.real = self._call(tgt.get_tag_values, keys, rf)
         elif kind == "get_field_values":
             sel_m = m if via_h else mfilter
             out.exp = mdl.get_field_values(op["key"], sel_m)
             if via_h:
                 out.real = self._call(tgt.get_field_values, op["key"])
             else:
-                out.real = self._call(tgt.get_field_values, op["key"], mfilter)
+                out.real = self._call(tgt.get_field_values, op["key"], rf)
         elif kind == "get_timestamps":
             sel_m = m if via_h else mfilter
             out.exp = mdl.get_timestamps(sel_m)
-            r = self._call(tgt.get_timestamps) if via_h else self._call(tgt.get_timestamps, mfilter)
+            r = self._call(tgt.get_timestamps) if via_h else self._call(tgt.get_timestamps, rf)
             out.real = self._norm_times(r)
         else:
             raise ValueError(kind)
